@@ -27,6 +27,7 @@ import (
 	"context"
 	"fmt"
 	"math"
+	"regexp"
 	"sort"
 	"strconv"
 	"strings"
@@ -133,11 +134,14 @@ func (it *memIt) Err() error           { return nil }
 
 func durText(ms int64) string { return fmt.Sprintf("%dms", ms) }
 
+// a metric name can be written bare only if it is an identifier (and not a keyword-like word)
+var metricNameRe = regexp.MustCompile(`^[a-z_][a-z0-9_]*$`)
+
 func selectorText(rt *rapid.T, ms []mMatcher) string {
 	var name string
 	var parts []string
 	for _, m := range ms {
-		if m.Name == "__name__" && m.Op == "=" && name == "" && chance(rt, 70, "bareName") {
+		if m.Name == "__name__" && m.Op == "=" && name == "" && metricNameRe.MatchString(m.Val) && chance(rt, 70, "bareName") {
 			name = m.Val
 			continue
 		}
